@@ -1,1 +1,731 @@
-//! (module to be written)
+//! C12 reference model: what TeX does between "words and spaces" and "lines of a paragraph".
+//!
+//! * space factor §1034 and inter-word glue §1041-1044 (`adjust_sf`, `space_glue`, `text_glues`),
+//! * the final preparation of the horizontal list by `line_break` §816 (`prepare`),
+//! * `post_line_break` §877-890 on an index representation of the list (`post_line_break`),
+//! * the glue-setting half of `hpack` §649-664 that `post_line_break` needs (`hpack`),
+//! * the model-independent conservation reading of the property (`unbreak`): the lines, read in
+//!   order, reproduce the list that was broken when the halves of a taken discretionary are joined
+//!   again and only the break item and discardable items after it are re-inserted.
+//!
+//! Written from tex.web; section numbers are quoted at each step. No /repo types: the check binary
+//! converts the real nodes to `Item` (attaching the font metrics of a character, which are input
+//! data here) and compares on this side.
+
+use crate::arith;
+
+// ------------------------------------------------------------------------------------------ glue
+
+/// A glue specification §150. Orders: 0 normal, 1 fil, 2 fill, 3 filll.
+#[derive(Clone, Copy, Debug, PartialEq, Eq, Default, PartialOrd, Ord, Hash)]
+pub struct Spec {
+    pub w: i64,
+    pub st: i64,
+    pub st_o: u8,
+    pub sh: i64,
+    pub sh_o: u8,
+}
+
+impl Spec {
+    pub const ZERO: Spec = Spec { w: 0, st: 0, st_o: 0, sh: 0, sh_o: 0 };
+    pub fn new(w: i64, st: i64, sh: i64) -> Spec {
+        Spec { w, st, st_o: 0, sh, sh_o: 0 }
+    }
+    /// TeX compares a glue parameter with the *pointer* `zero_glue`; §1229 `trap_zero_glue` makes
+    /// every assigned glue whose width, stretch and shrink are all 0 that pointer (whatever the
+    /// orders were).
+    pub fn is_zero_glue(&self) -> bool {
+        self.w == 0 && self.st == 0 && self.sh == 0
+    }
+    pub fn show(&self) -> String {
+        let o = |o: u8| ["", "fil", "fill", "filll"][o as usize & 3];
+        let unit = |o: u8| if o == 0 { "pt" } else { "" };
+        format!("{}pt plus {}{}{} minus {}{}{}", arith::print_scaled(self.w), arith::print_scaled(self.st), unit(self.st_o), o(self.st_o), arith::print_scaled(self.sh), unit(self.sh_o), o(self.sh_o))
+    }
+}
+
+// ---------------------------------------------------------------------------------- space factor
+
+/// §1034 `adjust_space_factor`: the space factor after a character whose `\sfcode` is `code`.
+pub fn adjust_sf(sf: i64, code: i64) -> i64 {
+    if code == 1000 {
+        1000
+    } else if code < 1000 {
+        if code > 0 {
+            code
+        } else {
+            sf
+        }
+    } else if sf < 1000 {
+        1000
+    } else {
+        code
+    }
+}
+
+/// IniTeX §232 (`\sfcode` 1000, capitals 999) + plain.tex (`\sfcode`\)=0 `\'=0 `\]=0) +
+/// plain.tex `\nonfrenchspacing`.
+pub fn plain_sf_code(c: u32) -> i64 {
+    match c {
+        0x41..=0x5a => 999,
+        0x29 | 0x27 | 0x5d => 0,
+        0x2e | 0x3f | 0x21 => 3000,
+        0x3a => 2000,
+        0x3b => 1500,
+        0x2c => 1250,
+        _ => 1000,
+    }
+}
+
+/// The font's space glue (§1042: fontdimen 2,3,4) and extra space (fontdimen 7).
+#[derive(Clone, Copy, Debug, PartialEq, Eq)]
+pub struct FontSpace {
+    pub space: Spec,
+    pub extra: i64,
+}
+
+#[derive(Clone, Copy, Debug, PartialEq, Eq)]
+pub struct SfSwitches {
+    /// false: the behaviour catalogued as D10b – `\spaceskip` is used unmodified when f ≠ 1000.
+    pub scale_spaceskip: bool,
+}
+impl Default for SfSwitches {
+    fn default() -> Self {
+        SfSwitches { scale_spaceskip: true }
+    }
+}
+
+/// §1041 (f = 1000) and §1043-1044 `app_space` (f ≠ 1000): the glue appended for a space token in
+/// horizontal mode. `Err` = `xn_over_d` raised `arith_error` (result undefined in TeX).
+pub fn space_glue(sf: i64, font: &FontSpace, space_skip: &Spec, xspace_skip: &Spec, sw: SfSwitches) -> Result<Spec, ()> {
+    if sf == 1000 {
+        // §1041: if space_skip=zero_glue then <font glue> else new_param_glue(space_skip_code)
+        return Ok(if space_skip.is_zero_glue() { font.space } else { *space_skip });
+    }
+    // §1043
+    if sf >= 2000 && !xspace_skip.is_zero_glue() {
+        return Ok(*xspace_skip);
+    }
+    let mut g = if !space_skip.is_zero_glue() {
+        if !sw.scale_spaceskip {
+            return Ok(*space_skip);
+        }
+        *space_skip
+    } else {
+        font.space
+    };
+    // §1044
+    if sf >= 2000 {
+        g.w += font.extra;
+    }
+    g.st = arith::xn_over_d(g.st, sf, 1000)?.0;
+    g.sh = arith::xn_over_d(g.sh, 1000, sf)?.0;
+    Ok(g)
+}
+
+/// A text as TeX's scanner delivers it in horizontal mode: words separated by single space tokens
+/// (§344-345: a run of blanks is one space token). `leading` = a space token precedes the first word.
+#[derive(Clone, Debug, PartialEq, Eq)]
+pub struct Words {
+    pub leading: bool,
+    pub words: Vec<String>,
+    pub trailing: bool,
+}
+
+pub fn split_words(text: &str) -> Words {
+    let words: Vec<String> = text.split(' ').filter(|w| !w.is_empty()).map(|w| w.to_string()).collect();
+    Words { leading: text.starts_with(' '), trailing: text.ends_with(' ') && !words.is_empty(), words }
+}
+
+/// The glue items of the horizontal list built from the text, in order (a paragraph starts with
+/// f = 1000, §1091 `norm_min`… `space_factor:=1000`). The glue of a trailing space token is
+/// included when `with_trailing` is set; `line_break` removes it again (§816).
+pub fn text_glues(t: &Words, sf_code: &dyn Fn(u32) -> i64, font: &FontSpace, space_skip: &Spec, xspace_skip: &Spec, sw: SfSwitches, with_trailing: bool) -> Result<(Vec<Spec>, Vec<i64>), ()> {
+    let mut sf = 1000i64;
+    let mut out = vec![];
+    let mut sfs = vec![];
+    if t.leading && !t.words.is_empty() {
+        out.push(space_glue(sf, font, space_skip, xspace_skip, sw)?);
+        sfs.push(sf);
+    }
+    for (i, w) in t.words.iter().enumerate() {
+        for c in w.chars() {
+            sf = adjust_sf(sf, sf_code(c as u32));
+        }
+        if i + 1 < t.words.len() || (with_trailing && t.trailing) {
+            out.push(space_glue(sf, font, space_skip, xspace_skip, sw)?);
+            sfs.push(sf);
+        }
+    }
+    Ok((out, sfs))
+}
+
+// ------------------------------------------------------------------------------------- list items
+
+#[derive(Clone, Copy, Debug, PartialEq, Eq, Hash)]
+pub enum KernKind {
+    Normal,
+    Explicit,
+    Accent,
+    Math,
+}
+
+/// An item of a horizontal list. Characters and ligatures carry their metrics (width, height,
+/// depth in sp) so that the model never looks at a font.
+#[derive(Clone, Debug, PartialEq, Eq, Hash)]
+pub enum Item {
+    Char { c: u32, font: u32, whd: [i64; 3] },
+    Lig { c: u32, font: u32, orig: String, lb: bool, rb: bool, whd: [i64; 3] },
+    Glue(Spec),
+    Kern { w: i64, kind: KernKind },
+    Penalty(i64),
+    Disc { pre: Vec<Item>, post: Vec<Item>, replace: usize },
+    /// math-on (false) / math-off (true); width 0 in this code base
+    Math(bool),
+    /// hbox, vbox or rule seen from outside (w, h, d already corrected for the shift)
+    Box { whd: [i64; 3], id: String },
+    /// anything the check could not convert (never equal to a model item)
+    Other(String),
+}
+
+impl Item {
+    /// §148 + §879: what is deleted at the beginning of a line after a break: glue, penalty, math,
+    /// and kerns whose subtype is `explicit` (§879: `if type(q)=kern_node then if
+    /// subtype(q)<>explicit then goto done1`).
+    pub fn discardable(&self) -> bool {
+        match self {
+            Item::Glue(_) | Item::Penalty(_) | Item::Math(_) => true,
+            Item::Kern { kind, .. } => *kind == KernKind::Explicit,
+            _ => false,
+        }
+    }
+    pub fn letters(&self) -> String {
+        match self {
+            Item::Char { c, .. } => char::from_u32(*c).map(|c| c.to_string()).unwrap_or_default(),
+            Item::Lig { orig, .. } => orig.clone(),
+            _ => String::new(),
+        }
+    }
+    pub fn show(&self) -> String {
+        match self {
+            Item::Char { c, .. } => format!("'{}'", char::from_u32(*c).unwrap_or('?')),
+            Item::Lig { c, orig, lb, rb, .. } => format!("lig#{c}({}{orig}{})", if *lb { "|" } else { "" }, if *rb { "|" } else { "" }),
+            Item::Glue(s) => format!("glue({})", s.show()),
+            Item::Kern { w, kind } => format!("kern{}({})", if *kind == KernKind::Explicit { "!" } else { "" }, arith::print_scaled(*w)),
+            Item::Penalty(p) => format!("pen({p})"),
+            Item::Disc { pre, post, replace } => format!("disc({}|{}|{})", show_list(pre), show_list(post), replace),
+            Item::Math(b) => format!("math{}", if *b { "off" } else { "on" }),
+            Item::Box { id, .. } => format!("box[{id}]"),
+            Item::Other(s) => format!("?{s}"),
+        }
+    }
+}
+
+pub fn show_list(l: &[Item]) -> String {
+    l.iter().map(|i| i.show()).collect::<Vec<_>>().join(" ")
+}
+
+/// The text a list spells when no discretionary break is taken (pre/post-break material is not part
+/// of that reading; the replaced nodes follow the discretionary in the list and are read there).
+pub fn spelling(l: &[Item]) -> String {
+    l.iter().map(|i| i.letters()).collect()
+}
+
+/// The list split at its glue items: the per-word spellings of a list made from text.
+pub fn word_spellings(l: &[Item]) -> Vec<String> {
+    let mut out = vec![String::new()];
+    for i in l {
+        if let Item::Glue(_) = i {
+            out.push(String::new());
+        } else {
+            out.last_mut().unwrap().push_str(&i.letters());
+        }
+    }
+    out
+}
+
+/// §816: `line_break` removes a final glue item and appends `\penalty10000 \parfillskip`.
+pub fn prepare(list: &[Item], par_fill_skip: &Spec) -> Vec<Item> {
+    let mut l = list.to_vec();
+    if let Some(Item::Glue(_)) = l.last() {
+        l.pop();
+    }
+    l.push(Item::Penalty(10000));
+    l.push(Item::Glue(*par_fill_skip));
+    l
+}
+
+// ----------------------------------------------------------------------------------------- hpack
+
+/// Glue setting of a box §135/§657-664. `sign`: 0 normal, 1 stretching, -1 shrinking. The glue set
+/// ratio is `num/den` (TeX stores a float).
+#[derive(Clone, Copy, Debug, PartialEq, Eq)]
+pub struct GlueSet {
+    pub sign: i8,
+    pub order: u8,
+    pub num: i64,
+    pub den: i64,
+}
+
+impl GlueSet {
+    /// |glue_set| where it has an effect (sign ≠ normal), else 0, as a fraction.
+    pub fn magnitude(&self) -> (i64, i64) {
+        if self.sign == 0 || self.num == 0 {
+            (0, 1)
+        } else {
+            (self.num.abs(), self.den.abs())
+        }
+    }
+    /// What §186 prints after "glue set": `round(unity*g)` through `print_scaled`.
+    pub fn printed(&self) -> String {
+        let (n, d) = self.magnitude();
+        let v = (2 * n * arith::UNITY + d) / (2 * d);
+        arith::print_scaled(v.min(20000 * arith::UNITY))
+    }
+}
+
+#[derive(Clone, Debug, PartialEq, Eq)]
+pub struct Packed {
+    pub natural: i64,
+    pub height: i64,
+    pub depth: i64,
+    pub set: GlueSet,
+    pub overfull: bool,
+    pub underfull_or_loose: bool,
+    /// totals by order (stretch, shrink) – lets the caller recognise the domain of C15's defects
+    pub total_stretch: [i64; 4],
+    pub total_shrink: [i64; 4],
+}
+
+/// `hpack(list, w, exactly)` §649-664, without the diagnostics.
+pub fn hpack(list: &[Item], w: i64) -> Packed {
+    let (mut x, mut h, mut d) = (0i64, 0i64, 0i64);
+    let mut ts = [0i64; 4];
+    let mut tk = [0i64; 4];
+    for it in list {
+        match it {
+            Item::Char { whd, .. } | Item::Lig { whd, .. } | Item::Box { whd, .. } => {
+                // §653-654
+                x += whd[0];
+                h = h.max(whd[1]);
+                d = d.max(whd[2]);
+            }
+            Item::Glue(g) => {
+                // §656
+                x += g.w;
+                ts[g.st_o as usize & 3] += g.st;
+                tk[g.sh_o as usize & 3] += g.sh;
+            }
+            Item::Kern { w, .. } => x += w, // §651
+            Item::Math(_) | Item::Penalty(_) | Item::Disc { .. } | Item::Other(_) => {}
+        }
+    }
+    let natural = x;
+    // §657
+    let x = w - natural;
+    let hi = |t: &[i64; 4]| -> u8 {
+        // §659 / §665: the highest order whose total is non-zero
+        if t[3] != 0 {
+            3
+        } else if t[2] != 0 {
+            2
+        } else if t[1] != 0 {
+            1
+        } else {
+            0
+        }
+    };
+    let mut overfull = false;
+    let mut loose = false;
+    let set = if x == 0 {
+        GlueSet { sign: 0, order: 0, num: 0, den: 1 }
+    } else if x > 0 {
+        // §658
+        let o = hi(&ts);
+        if ts[o as usize] != 0 {
+            if o == 0 && !list.is_empty() {
+                loose = arith::badness(x, ts[0]) > 0; // §660 (reported against \hbadness; informational)
+            }
+            GlueSet { sign: 1, order: o, num: x, den: ts[o as usize] }
+        } else {
+            loose = !list.is_empty();
+            GlueSet { sign: 0, order: o, num: 0, den: 1 }
+        }
+    } else {
+        // §664
+        let o = hi(&tk);
+        let mut s = if tk[o as usize] != 0 { GlueSet { sign: -1, order: o, num: -x, den: tk[o as usize] } } else { GlueSet { sign: 0, order: o, num: 0, den: 1 } };
+        if tk[o as usize] < -x && o == 0 && !list.is_empty() {
+            // overfull: set_glue_ratio_one (the sign stays normal when there was no shrink at all)
+            overfull = true;
+            s.num = 1;
+            s.den = 1;
+        }
+        s
+    };
+    Packed { natural, height: h, depth: d, set, overfull, underfull_or_loose: loose, total_stretch: ts, total_shrink: tk }
+}
+
+// ------------------------------------------------------------------------------- post_line_break
+
+#[derive(Clone, Debug, PartialEq, Eq)]
+pub struct ParParams {
+    pub left_skip: Spec,
+    pub right_skip: Spec,
+    /// width of line i is `widths[min(i, len-1)]` (`\parshape` semantics §849: the last entry repeats)
+    pub widths: Vec<i64>,
+    /// indent of line i is `indents[min(i, len-1)]`, 0 when empty
+    pub indents: Vec<i64>,
+    pub inter_line_penalty: i64,
+    pub club_penalty: i64,
+    pub widow_penalty: i64,
+    pub broken_penalty: i64,
+}
+
+impl ParParams {
+    pub fn width(&self, line: usize) -> i64 {
+        self.widths[line.min(self.widths.len() - 1)]
+    }
+    pub fn indent(&self, line: usize) -> i64 {
+        if self.indents.is_empty() {
+            0
+        } else {
+            self.indents[line.min(self.indents.len() - 1)]
+        }
+    }
+}
+
+#[derive(Clone, Copy, Debug, PartialEq, Eq)]
+pub struct PlbSwitches {
+    /// false: the behaviour catalogued as D10 – only the break item itself is removed, §879 is skipped.
+    pub prune: bool,
+}
+impl Default for PlbSwitches {
+    fn default() -> Self {
+        PlbSwitches { prune: true }
+    }
+}
+
+#[derive(Clone, Debug, PartialEq, Eq)]
+pub struct Line {
+    pub items: Vec<Item>,
+    pub width: i64,
+    pub shift: i64,
+    pub packed: Packed,
+    /// penalty appended to the vertical list after this line (§890), if non-zero
+    pub penalty_after: Option<i64>,
+    /// the penalty sum of §890 even when it is zero (None on the last line)
+    pub penalty_sum: Option<i64>,
+    /// bookkeeping for the collision counters
+    pub pruned: usize,
+    pub carried_post: usize,
+    pub replaced: usize,
+    pub disc_break: bool,
+    pub prune_stopped_at_break: bool,
+}
+
+/// `post_line_break` §877-890 for the breakpoints `breaks` (indices into `list`; the last one is
+/// `list.len()`, TeX's `null`). `Err` = TeX's `confusion("line breaking")` or an index that is not a
+/// legal place to break.
+pub fn post_line_break(list: &[Item], breaks: &[usize], p: &ParParams, sw: PlbSwitches) -> Result<Vec<Line>, String> {
+    if breaks.is_empty() {
+        return Err("no breakpoints".into());
+    }
+    let n = breaks.len();
+    let mut out = vec![];
+    let mut cursor = 0usize;
+    let mut pending_post: Vec<Item> = vec![];
+    for (k, &b) in breaks.iter().enumerate() {
+        let last = k + 1 == n;
+        if b < cursor || b > list.len() {
+            return Err(format!("breakpoint {b} lies inside material that was already consumed (cursor {cursor})"));
+        }
+        if last != (b == list.len()) {
+            return Err(format!("breakpoint {b} of {n}: only the final break is at the end of the list"));
+        }
+        let mut items: Vec<Item> = vec![];
+        // §887: \leftskip only if it is not zero_glue
+        if !p.left_skip.is_zero_glue() {
+            items.push(Item::Glue(p.left_skip));
+        }
+        // §884: the post-break list of the previous discretionary starts this line
+        let carried_post = pending_post.len();
+        items.append(&mut pending_post);
+        items.extend_from_slice(&list[cursor..b]);
+        // §881
+        let mut disc_break = false;
+        let mut post_disc_break = false;
+        let mut replaced = 0;
+        let mut next = b;
+        if !last {
+            match &list[b] {
+                Item::Glue(_) => {
+                    // the glue node becomes the \rightskip node
+                    next = b + 1;
+                }
+                Item::Disc { pre, post, replace } => {
+                    // §882-885: the t replaced nodes are destroyed, post-break goes to the next
+                    // line, the (now empty) discretionary stays, followed by the pre-break list
+                    if b + 1 + replace > list.len() {
+                        return Err("replace count runs past the end of the list".into());
+                    }
+                    items.push(Item::Disc { pre: vec![], post: vec![], replace: 0 });
+                    items.extend(pre.iter().cloned());
+                    pending_post = post.clone();
+                    post_disc_break = !post.is_empty();
+                    disc_break = true;
+                    replaced = *replace;
+                    next = b + 1 + replace;
+                }
+                Item::Kern { kind, .. } => {
+                    items.push(Item::Kern { w: 0, kind: *kind });
+                    next = b + 1;
+                }
+                Item::Math(m) => {
+                    items.push(Item::Math(*m));
+                    next = b + 1;
+                }
+                Item::Penalty(q) => {
+                    items.push(Item::Penalty(*q));
+                    next = b + 1;
+                }
+                other => return Err(format!("item {} at {b} cannot be a breakpoint", other.show())),
+            }
+        } else {
+            next = list.len();
+        }
+        // §886: \rightskip always
+        items.push(Item::Glue(p.right_skip));
+        // §889
+        let width = p.width(k);
+        let shift = p.indent(k);
+        let packed = hpack(&items, width);
+        // §890
+        let (penalty_sum, penalty_after) = if !last {
+            let mut pen = p.inter_line_penalty;
+            if k == 0 {
+                pen += p.club_penalty;
+            }
+            if k + 2 == n {
+                pen += p.widow_penalty;
+            }
+            if disc_break {
+                pen += p.broken_penalty;
+            }
+            (Some(pen), if pen != 0 { Some(pen) } else { None })
+        } else {
+            (None, None)
+        };
+        // §879 (only `if cur_p<>null then if not post_disc_break`)
+        let mut pruned = 0;
+        let mut stopped_at_break = false;
+        if !last && !post_disc_break && sw.prune {
+            let nb = breaks[k + 1];
+            loop {
+                if next == nb {
+                    // "except in the anomalous case that the node to be deleted is actually one
+                    // of the chosen breakpoints"
+                    stopped_at_break = next < list.len() && list[next].discardable() && !matches!(list[next], Item::Glue(_)) || (next < list.len() && matches!(list[next], Item::Glue(_)));
+                    break;
+                }
+                if next >= list.len() {
+                    return Err("pruning ran past the end of the list (confusion)".into());
+                }
+                if !list[next].discardable() {
+                    break;
+                }
+                next += 1;
+                pruned += 1;
+            }
+        }
+        out.push(Line { items, width, shift, packed, penalty_after, penalty_sum, pruned, carried_post, replaced, disc_break, prune_stopped_at_break: stopped_at_break });
+        cursor = next;
+    }
+    if cursor != list.len() {
+        return Err("material left over after the last line (confusion)".into());
+    }
+    Ok(out)
+}
+
+// --------------------------------------------------------------------------------------- unbreak
+
+#[derive(Clone, Debug, PartialEq, Eq, Default)]
+pub struct Unbroken {
+    /// the break index recovered for every line (last = list.len())
+    pub breaks: Vec<usize>,
+    /// number of discardable items of the list that were dropped after each break
+    pub dropped: Vec<usize>,
+    /// lines (index ≥ 1) whose own material begins with a discardable item
+    pub starts_with_discardable: Vec<usize>,
+}
+
+/// Conservation, independent of `post_line_break` above. `lines[k]` is the content of line box k.
+/// Every line must be `[\leftskip if non-zero] material \rightskip`. Reading the material of the
+/// lines in order must reproduce `list` when
+///   * a line that ends `disc{} pre…` is joined with the `post…` start of the next line into the
+///     discretionary `disc{pre}{post}{r replaced items}` found at that place of the list,
+///   * a line that ends at a glue item gets that glue item back, a line that ends with a penalty or
+///     a zero-width kern/math item is matched with the penalty/kern/math item of the list,
+///   * and after such a break (no post-break material) zero or more items of the list, all
+///     discardable, may be missing.
+/// Returns the recovered breakpoints, or a description of the first place where no reading fits.
+pub fn unbreak(list: &[Item], lines: &[Vec<Item>], left_skip: &Spec, right_skip: &Spec) -> Result<Unbroken, String> {
+    let mut contents: Vec<&[Item]> = vec![];
+    for (k, l) in lines.iter().enumerate() {
+        let mut c: &[Item] = l;
+        if !left_skip.is_zero_glue() {
+            match c.first() {
+                Some(Item::Glue(g)) if g == left_skip => c = &c[1..],
+                _ => return Err(format!("line {k} does not begin with \\leftskip")),
+            }
+        }
+        match c.last() {
+            Some(Item::Glue(g)) if g == right_skip => c = &c[..c.len() - 1],
+            _ => return Err(format!("line {k} does not end with \\rightskip")),
+        }
+        contents.push(c);
+    }
+    if contents.is_empty() {
+        return Err("no lines".into());
+    }
+    let mut best_fail = (0usize, String::from("no reading fits"));
+    let mut u = Unbroken::default();
+    if rec(list, &contents, 0, 0, &[], &mut u, &mut best_fail) {
+        Ok(u)
+    } else {
+        Err(format!("line {}: {}", best_fail.0, best_fail.1))
+    }
+}
+
+fn note(best: &mut (usize, String), k: usize, msg: impl FnOnce() -> String) {
+    if k >= best.0 {
+        *best = (k, msg());
+    }
+}
+
+fn rec(list: &[Item], contents: &[&[Item]], k: usize, cursor: usize, pending_post: &[Item], u: &mut Unbroken, best: &mut (usize, String)) -> bool {
+    let c = contents[k];
+    if c.len() < pending_post.len() || c[..pending_post.len()] != *pending_post {
+        note(best, k, || format!("does not begin with the post-break material {}", show_list(pending_post)));
+        return false;
+    }
+    let rest = &c[pending_post.len()..];
+    let own_start_discardable = k > 0 && pending_post.is_empty() && rest.first().map(|i| i.discardable()).unwrap_or(false);
+    let last = k + 1 == contents.len();
+    let tail = &list[cursor.min(list.len())..];
+    if last {
+        if rest == tail {
+            u.breaks.push(list.len());
+            if own_start_discardable {
+                u.starts_with_discardable.push(k);
+            }
+            return true;
+        }
+        note(best, k, || format!("last line holds {} but the rest of the list is {}", show_list(rest), show_list(tail)));
+        return false;
+    }
+    // candidate breaks: (break index, index after the break incl. replaced items, post-break list, may drop)
+    let mut cands: Vec<(usize, usize, &[Item], bool, bool)> = vec![];
+    let n = rest.len();
+    // at a glue item: the whole rest is list material, the next list item is glue
+    if tail.len() > n && rest == &tail[..n] {
+        if let Item::Glue(_) = tail[n] {
+            cands.push((cursor + n, cursor + n + 1, &[], true, false));
+        }
+    }
+    // at a penalty / kern / math item that stays at the end of the line
+    if n >= 1 && tail.len() >= n && rest[..n - 1] == tail[..n - 1] {
+        let ok = match (&rest[n - 1], &tail[n - 1]) {
+            (Item::Penalty(a), Item::Penalty(b)) => a == b,
+            (Item::Kern { w: 0, kind: a }, Item::Kern { kind: b, .. }) => a == b && *a == KernKind::Explicit,
+            (Item::Math(a), Item::Math(b)) => a == b,
+            _ => false,
+        };
+        if ok {
+            cands.push((cursor + n - 1, cursor + n, &[], true, n == 1));
+        }
+    }
+    // at a discretionary: rest = material, disc{}, pre-break
+    for m in 0..n {
+        if let Item::Disc { pre, post, replace } = &rest[m] {
+            if !pre.is_empty() || !post.is_empty() || *replace != 0 {
+                continue;
+            }
+            if tail.len() > m && rest[..m] == tail[..m] {
+                if let Item::Disc { pre: dpre, post: dpost, replace: r } = &tail[m] {
+                    if rest[m + 1..] == dpre[..] && cursor + m + 1 + r <= list.len() {
+                        cands.push((cursor + m, cursor + m + 1 + r, &dpost[..], dpost.is_empty(), false));
+                    }
+                }
+            }
+        }
+    }
+    if cands.is_empty() {
+        note(best, k, || format!("holds {} which is neither list material up to a glue item nor ends in a break item of the list; list continues {}", show_list(rest), show_list(&tail[..tail.len().min(n + 2)])));
+        return false;
+    }
+    for (b, after, post, may_drop, is_own_break_item) in cands {
+        let mut run = 0;
+        if may_drop {
+            while after + run < list.len() && list[after + run].discardable() {
+                run += 1;
+            }
+        }
+        // prefer the reading that drops the most
+        for drop in (0..=run).rev() {
+            let mark = (u.breaks.len(), u.dropped.len(), u.starts_with_discardable.len());
+            u.breaks.push(b);
+            u.dropped.push(drop);
+            if own_start_discardable && !is_own_break_item {
+                u.starts_with_discardable.push(k);
+            }
+            if rec(list, contents, k + 1, after + drop, post, u, best) {
+                return true;
+            }
+            u.breaks.truncate(mark.0);
+            u.dropped.truncate(mark.1);
+            u.starts_with_discardable.truncate(mark.2);
+        }
+    }
+    false
+}
+
+#[cfg(test)]
+mod tests {
+    use super::*;
+    fn ch(c: char) -> Item {
+        Item::Char { c: c as u32, font: 0, whd: [5 * 65536, 0, 0] }
+    }
+    fn gl() -> Item {
+        Item::Glue(Spec::new(2 * 65536, 65536, 65536))
+    }
+    #[test]
+    fn sf() {
+        assert_eq!(adjust_sf(1000, 999), 999);
+        assert_eq!(adjust_sf(999, 3000), 1000);
+        assert_eq!(adjust_sf(1000, 3000), 3000);
+        assert_eq!(adjust_sf(3000, 0), 3000);
+        let f = FontSpace { space: Spec::new(218453, 109226, 72818), extra: 72818 };
+        let g = space_glue(3000, &f, &Spec::ZERO, &Spec::ZERO, Default::default()).unwrap();
+        assert_eq!((arith::print_scaled(g.w), arith::print_scaled(g.st), arith::print_scaled(g.sh)), ("4.44444".into(), "4.99997".into(), "0.37036".into()));
+    }
+    #[test]
+    fn prune_all_discardables() {
+        let l = prepare(&[ch('a'), gl(), gl(), Item::Penalty(5), ch('b')], &Spec { w: 0, st: 65536, st_o: 1, sh: 0, sh_o: 0 });
+        let p = ParParams { left_skip: Spec::ZERO, right_skip: Spec::ZERO, widths: vec![5 * 65536], indents: vec![], inter_line_penalty: 0, club_penalty: 150, widow_penalty: 150, broken_penalty: 100 };
+        let lines = post_line_break(&l, &[1, l.len()], &p, Default::default()).unwrap();
+        assert_eq!(lines[0].items, vec![ch('a'), Item::Glue(Spec::ZERO)]);
+        assert_eq!(lines[0].penalty_after, Some(300));
+        assert_eq!(lines[0].pruned, 2);
+        assert_eq!(lines[1].items[0], ch('b'));
+        let ls: Vec<Vec<Item>> = lines.iter().map(|l| l.items.clone()).collect();
+        let u = unbreak(&l, &ls, &Spec::ZERO, &Spec::ZERO).unwrap();
+        assert_eq!(u.breaks, vec![1, l.len()]);
+        assert_eq!(u.dropped, vec![2]);
+        assert!(u.starts_with_discardable.is_empty());
+        let lines = post_line_break(&l, &[1, l.len()], &p, PlbSwitches { prune: false }).unwrap();
+        let ls: Vec<Vec<Item>> = lines.iter().map(|l| l.items.clone()).collect();
+        let u = unbreak(&l, &ls, &Spec::ZERO, &Spec::ZERO).unwrap();
+        assert_eq!(u.starts_with_discardable, vec![1]);
+    }
+}
